@@ -20,185 +20,12 @@ FULL STATEMENT (false of the unchanged code; to be proved without `hsafe` once `
 namespace NasdaqModel.Props.C18
 open NasdaqModel Heap
 
-/-! ### the invariant holds in every state a class-safe history reaches -/
-
-theorem stepK_inv {S : Schema} {H : Heap} {op : Op} (hi : Inv H) (hsafe : classSafe S H op = true) :
-    Inv (stepK S H op) := by
-  unfold stepK
-  cases hs : step S H op with
-  | ok H' => exact (step_sound hi hs hsafe).2.1
-  | error e => exact hi
-
-theorem run_inv {S : Schema} : ∀ (ops : List Op) (H : Heap), Inv H → safeRun S H ops = true → Inv (run S H ops)
-  | [], H, hi, _ => hi
-  | op :: ops, H, hi, hs => by
-    simp only [safeRun, Bool.and_eq_true] at hs
-    exact run_inv ops (stepK S H op) (stepK_inv hi hs.1) hs.2
-
-theorem safeRun_append {S : Schema} : ∀ (ops : List Op) (H : Heap) (op : Op),
-    safeRun S H (ops ++ [op]) = true → safeRun S H ops = true ∧ classSafe S (run S H ops) op = true
-  | [], H, op, h => by simpa [safeRun, run] using h
-  | o :: ops, H, op, h => by
-    simp only [List.cons_append, safeRun, Bool.and_eq_true] at h
-    have := safeRun_append ops (stepK S H o) op h.2
-    simp only [safeRun, Bool.and_eq_true, run, List.foldl_cons]
-    exact ⟨⟨h.1, this.1⟩, this.2⟩
-
-theorem run_append (S : Schema) (H : Heap) (ops : List Op) (op : Op) :
-    run S H (ops ++ [op]) = stepK S (run S H ops) op := by
-  simp [run, List.foldl_append]
-
 /-- **C18_inv_reachable.**  Ownership invariant of every reachable state: references never leave their owner (so the
     mutable cells reachable from distinct instances are disjoint and contain no class-level cell other than through an
     unassigned default), every root belongs to its instance, buffers belong to the caller. -/
 theorem C18_inv_reachable (S : Schema) (ops : List Op) (hsafe : safeRun S init ops = true) :
     Inv (run S init ops) :=
   run_inv ops init init_inv hsafe
-
-/-! ### frame property of one operation -/
-
-theorem opOwners_not_mine {H : Heap} {op : Op} {b : Nat} (hb : b ≠ op.target H) {o : Owner}
-    (hm : Mine b o) : ¬ opOwners H op o := by
-  intro hp
-  cases op <;> simp only [opOwners, Op.target] at hp hb <;>
-    first
-    | exact hp
-    | (rcases hm with h | h <;> rw [h] at hp <;> first | (injection hp with hp; exact hb hp) | cases hp)
-
-/-- what an operation about another instance leaves alone: the instance table entry of `b` and every observation that
-    starts inside `b`'s own or class-level cells -/
-theorem frame_core {S : Schema} {H H' : Heap} {op : Op} (hi : Inv H) (hs : step S H op = .ok H')
-    (hsafe : classSafe S H op = true) {b : Nat} (hb : b ≠ op.target H) :
-    H'.insts[b]? = H.insts[b]? ∧
-    ∀ (n : Nat) (v : Val), RefsIn (Mine b) H.cells v.refs → deref S n H'.cells v = deref S n H.cells v := by
-  obtain ⟨hext, _, extra, hins⟩ := step_sound hi hs hsafe
-  constructor
-  · rw [hins]
-    by_cases hlt : b < H.insts.length
-    · exact List.getElem?_append_left hlt
-    · have hle := Nat.le_of_not_lt hlt
-      rw [List.getElem?_append_right hle, List.getElem?_eq_none_iff.mpr hle]
-      -- only `new` / `decode` extend the table, by exactly the target
-      cases op with
-      | new c =>
-        simp only [step] at hs
-        obtain ⟨t, _, hs⟩ := bind_ok hs
-        split at hs
-        · injection hs with hs; subst hs
-          simp only [List.append_cancel_left_eq] at hins
-          subst hins
-          simp only [Op.target] at hb
-          have : b - H.insts.length ≠ 0 := by omega
-          rw [List.getElem?_eq_none_iff]; simp; omega
-        · simp at hs
-      | decode c bb =>
-        simp only [step] at hs
-        split at hs
-        · simp at hs
-        · split at hs
-          · obtain ⟨ct, _, hs⟩ := bind_ok hs
-            split at hs
-            · injection hs with hs; subst hs
-              simp only [List.append_cancel_left_eq] at hins
-              subst hins
-              simp only [Op.target] at hb
-              rw [List.getElem?_eq_none_iff]; simp; omega
-            · simp at hs
-          · simp at hs
-      | read a p =>
-        simp only [step] at hs
-        obtain ⟨_, _, hs⟩ := bind_ok hs
-        obtain ⟨_, _, hs⟩ := bind_ok hs
-        injection hs with hs; subst hs
-        have : extra = [] := by simpa using hins
-        subst this; simp
-      | encode a =>
-        simp only [step] at hs
-        obtain ⟨_, _, hs⟩ := bind_ok hs
-        injection hs with hs; subst hs
-        have : extra = [] := by simpa using hins
-        subst this; simp
-      | assign a p k t =>
-        simp only [step] at hs
-        obtain ⟨r, _, hs⟩ := bind_ok hs
-        split at hs
-        · obtain ⟨t', _, hs⟩ := bind_ok hs
-          injection hs with hs; subst hs
-          have : extra = [] := by simpa using hins
-          subst this; simp
-        · simp at hs
-      | append a p t =>
-        simp only [step] at hs
-        obtain ⟨r, _, hs⟩ := bind_ok hs
-        split at hs
-        · injection hs with hs; subst hs
-          have : extra = [] := by simpa using hins
-          subst this; simp
-        · simp at hs
-      | setIdx a p i t =>
-        simp only [step] at hs
-        obtain ⟨r, _, hs⟩ := bind_ok hs
-        split at hs
-        · obtain ⟨xs', _, hs⟩ := bind_ok hs
-          injection hs with hs; subst hs
-          have : extra = [] := by simpa using hins
-          subst this; simp
-        · simp at hs
-      | mkbuf a =>
-        simp only [step] at hs
-        obtain ⟨bs, _, hs⟩ := bind_ok hs
-        injection hs with hs; subst hs
-        have : extra = [] := by simpa using hins
-        subst this; simp
-      | scribble bb =>
-        simp only [step] at hs
-        split at hs
-        · simp at hs
-        · split at hs
-          · injection hs with hs; subst hs
-            have : extra = [] := by simpa using hins
-            subst this; simp
-          · simp at hs
-  · intro n v hv
-    apply deref_agree S (Mine b) H.cells H'.cells ?_ hi.closed (hi.refs0 b) n v hv
-    intro a c hc hq
-    obtain ⟨c', hc', _, hk⟩ := hext.keep a c hc
-    rw [hc', hk (opOwners_not_mine hb hq)]
-
-/-- one-step frame property for views -/
-theorem step_frame {S : Schema} {H H' : Heap} {op : Op} (hi : Inv H) (hs : step S H op = .ok H')
-    (hsafe : classSafe S H op = true) {b : Nat} (hb : b ≠ op.target H) (n : Nat) :
-    view S n H' b = view S n H b := by
-  obtain ⟨hins, hd⟩ := frame_core hi hs hsafe hb
-  unfold view
-  rw [hins]
-  cases hcr : H.insts[b]? with
-  | none => rfl
-  | some cr =>
-    simp only
-    congr 1
-    apply hd
-    obtain ⟨c, hc, ho⟩ := hi.roots b cr hcr
-    intro r hr
-    simp [Val.refs] at hr; subst hr
-    exact ⟨c, hc, Or.inl ho⟩
-
-theorem step_frame_encode {S : Schema} {H H' : Heap} {op : Op} (hi : Inv H) (hs : step S H op = .ok H')
-    (hsafe : classSafe S H op = true) {b : Nat} (hb : b ≠ op.target H) :
-    encodeInst S H' b = encodeInst S H b := by
-  obtain ⟨hins, hd⟩ := frame_core hi hs hsafe hb
-  unfold encodeInst
-  rw [hins]
-  cases hcr : H.insts[b]? with
-  | none => rfl
-  | some cr =>
-    simp only
-    congr 1
-    apply hd
-    obtain ⟨c, hc, ho⟩ := hi.roots b cr hcr
-    intro r hr
-    simp [Val.refs] at hr; subst hr
-    exact ⟨c, hc, Or.inl ho⟩
 
 /-! ### the property, over histories -/
 
@@ -302,7 +129,7 @@ structure FreshInstance (H H' : Heap) : Prop where
       class-level cell or a buffer, and nothing old points into it -/
   closed : Inv H'
 
-theorem fresh_of_create {H : Heap} (t : Tree) (c : Nat) (root : Addr) (hi : Inv H)
+private theorem fresh_of_create {H : Heap} (t : Tree) (c : Nat) (root : Addr) (hi : Inv H)
     (hroot : (allocTree (Owner.inst H.insts.length) t H.cells).2 = Val.ref root) :
     FreshInstance H { H with cells := (allocTree (Owner.inst H.insts.length) t H.cells).1,
                              insts := H.insts ++ [(c, root)] } := by
